@@ -117,6 +117,8 @@ func (w *world) queryScope(t []string) string {
 		return showScope(w.scopeFor(wire.Dec(t[1]), lbl))
 	case t[0] == "gw" && len(t) == 2:
 		return showScope(w.gatewayScopeFor(wire.Dec(t[1])))
+	case t[0] == "xds" && len(t) >= 3:
+		return w.queryXDS(t)
 	}
 	return "bad-op"
 }
@@ -454,6 +456,11 @@ func (w *world) oracleScope() string {
 		case t[0] == "gw" && len(t) == 2:
 			ns := wire.Dec(t[1])
 			if v := w.oracleOneScope(w.gatewayScopeFor(ns), ns, true); v != "" {
+				return v
+			}
+		case t[0] == "xds" && len(t) >= 3:
+			lbl, _ := decLabels(t[2])
+			if v := w.oracleXDS(wire.Dec(t[1]), lbl); v != "" {
 				return v
 			}
 		}
